@@ -77,7 +77,7 @@ class BaseErrorModel(metaclass=ABCMeta):
         pi, px, py, pz = self.probability_distribution(code, error_rate)
 
         prob_vector = np.zeros(code.n)
-        prob_vector += py * (error[:code.n] == error[code.n:])
+        prob_vector += py * np.logical_and(error[:code.n], error[code.n:])
         prob_vector += px * np.logical_and(error[:code.n],
                                            np.logical_not(error[code.n:]))
         prob_vector += pz * np.logical_and(np.logical_not(error[:code.n]),
